@@ -17,7 +17,7 @@ ANCHORS = [("lib/debian/_deb822_repro/parsing.py",
              "Deb822DuplicateFieldsParagraphElement", "Deb822KeyValuePairElement",
              "add_final_newline_if_missing", "_convert_value_lines_to_lines"]),
            ("lib/debian/_deb822_repro/tokens.py", ["_RE_FIELD_LINE", "_RE_WHITESPACE_LINE"])]
-BUDGET = {"quick": 800, "thorough": 9000}
+BUDGET = {"quick": 600, "thorough": 5000}
 RULE = ("documents of 1-3 paragraphs assembled from line blocks (comment lines before fields, single/multi-line "
         "values, comment lines inside values, tab continuation, empty values, odd separators after the colon, "
         "free comments/blank/whitespace-only lines between paragraphs, with and without a final LF; a tenth with "
@@ -31,19 +31,33 @@ TRUSTED = ["model coq/Repro/Doc.v is a hand transcription of the dict interface 
            "debian._deb822_repro.parsing at field-text level (both paragraph classes; name-token keys, "
            "configured_view wrappers and interpretations are not modelled); tied to the code only by this correspondence",
            "the initial abstract document of a case is read off the implementation's own parse (iter_parts walk in "
-           "harness/props/c05.py: class name, comment text, name text, remaining text per key-value pair)",
+           "harness/props/c05.py: class name, comment text, name text, remaining text per key-value pair); agree also "
+           "checks that it satisfies the theorems' hypothesis doc_ok (coq/Repro/DocInv.v) whenever no paragraph repeats "
+           "a field name, and that every later model state without repeated names does",
            "field-text recogniser parse_new_field stands in for tokenizer+parser on the lines "
            "set_field_from_raw_string builds; leaves match_field_line / is_ws_line / format_comment are compared "
            "with the live compiled patterns and function",
-           "str.strip/splitlines as modelled in coq/Lib/PyStr.v with the interpreter's tables (coq/Gen/PyChars.v)"]
+           "str.strip/splitlines as modelled in coq/Lib/PyStr.v with the interpreter's tables (coq/Gen/PyChars.v)",
+           "case literals: texts are written as lists of physical lines with LF/TAB raw inside the Coq string literal "
+           "(decoded by Lib/Dec.v dec and concatenation); strings and read-out rows repeated inside a case are "
+           "let-bound once (harness/props/c05.py emit_history)"]
 ASSUMPTIONS = ["keys are ASCII (str.lower is modelled by ascii_lower); histories with non-ASCII keys are run and "
                "compared but are outside the property's judged domain",
-               "read-back: C05_set_readback_partial is relative to a Section hypothesis on the parser "
-               "(parse (dump d) shows the fields of d for well-formed d) that belongs to C01",
-               "edits on paragraphs with duplicated field names are compared with the model but judged by C10, not C05",
-               "must-be-accepted domain: value deb822 can carry (continuation lines start with space/tab and are not "
-               "blank, comment lines only between them, no line boundary other than LF) and, for a new field, a name "
-               "of letters/digits/-/_ starting with a letter or digit"]
+               "read-back: the theorems C05_set_readback_partial / C05_setter_readback_partial / "
+               "C05_delete_readback_partial are about the edited object (values through the dict interface of the "
+               "model, = the Spec's expected_read for every value deb822 can carry); C05_reread_partial / "
+               "C05_set_reread_partial prove that the text of every paragraph of the dump re-reads (scan_para, compared "
+               "by agree with the implementation's parse and fresh re-parse) to that paragraph's fields; the "
+               "whole-document fresh parse (paragraph splitting) is judged by holds on the implementation's own "
+               "re-parse only (no parse_dump_abs theorem)",
+               "theorem domain doc_ok: no paragraph repeats a field name (both paragraph classes); edits on paragraphs "
+               "with duplicated field names are compared with the model but neither judged by holds nor covered by the "
+               "locality theorems (the index invariant of the duplicate-fields class is proved for them)",
+               "must-be-accepted domain of holds: value deb822 can carry (continuation lines start with space/tab and are "
+               "not blank, comment lines only between them, no line boundary other than LF), for a new field a name of "
+               "letters/digits/-/_ starting with a letter or digit, and comment arguments that are empty or contain a "
+               "visible character; any other call may be rejected (document unchanged) or accepted (then locality and "
+               "read-back are demanded)"]
 
 
 # ---------------------------------------------------------------------------
